@@ -233,10 +233,13 @@ func ApplyNames(t *rapid.T, s *Spec) {
 		it.Name = n.free(it.Pkg, name)
 	}
 	// --- sets
+	conventional := n.pct(35, "allsetsnamedset") // the conventional `var Set = ...` in every package
 	for si := range s.Sets {
 		st := &s.Sets[si]
 		name := st.Name
-		if n.pct(50, "renameset") {
+		if conventional {
+			name = "Set"
+		} else if n.pct(50, "renameset") {
 			name = rapid.SampledFrom(setNamePool).Draw(t, "setname")
 			if st.Pkg == 0 && n.pct(30, "unexportedset") {
 				name = strings.ToLower(name[:1]) + name[1:]
